@@ -4,7 +4,8 @@
    ([pol_any]), any number of streams and unary calls, any interleaving.
 
    FAULT-FREE runs ([fault_free]: no read failure, no write failure / blocked write, no Stop, no cancellation of
-   Serve's context), no reset written by the client (= no caller cancellation / deadline / abort on a stream):
+   Serve's context); the caller -> handler clauses ask that the client wrote no reset UNDER THE ID OF THAT STREAM (= no caller
+   cancellation / deadline / abort on that stream; what happens on the other streams of the connection does not matter):
    - [C02_prefix_c2h]: the RecvMsg results of a stream handler are the classifications of a PREFIX of the envelopes
      its caller wrote on the stream after the opening one (SendMsg's bodies, CloseSend's trailer), in order;
    - [C02_prefix_h2c]: the messages a caller's RecvMsg returned are a PREFIX of the messages in the envelopes the
@@ -38,7 +39,7 @@ Open Scope Z_scope.
 (* ====================== fault-free runs ====================== *)
 Theorem C02_prefix_c2h : forall pol ls s h k,
   Sys.lrun pol Sys.init ls = Some s -> fault_free ls = true ->
-  (forall e, In (EvWrite e) (Client.log (cl s)) -> erst e = false) ->
+  (forall e, In (EvWrite e) (Client.log (cl s)) -> eid e = fid (h_req k) -> erst e = false) ->
   nth_error (hs (sv s)) h = Some k -> h_unary k = false ->
   exists fs, recv_results h (Server.log (sv s)) = map recv_res fs /\
              is_prefix (map f_env fs) (tl (by_id (fid (h_req k)) (cwrites (Client.log (cl s))))).
@@ -54,7 +55,7 @@ Print Assumptions C02_prefix_h2c.
 
 Theorem C02_handler_eof_after_all : forall pol ls s h k R1 R2,
   Sys.lrun pol Sys.init ls = Some s -> fault_free ls = true ->
-  (forall e, In (EvWrite e) (Client.log (cl s)) -> erst e = false) ->
+  (forall e, In (EvWrite e) (Client.log (cl s)) -> eid e = fid (h_req k) -> erst e = false) ->
   nth_error (hs (sv s)) h = Some k -> h_unary k = false ->
   recv_results h (Server.log (sv s)) = R1 ++ ORecvEof :: R2 ->
   exists F1 W2, R1 = map recv_res F1 /\
@@ -64,7 +65,7 @@ Print Assumptions C02_handler_eof_after_all.
 
 Theorem C02_handler_eof_complete : forall pol ls s h k,
   Sys.lrun pol Sys.init ls = Some s -> fault_free ls = true ->
-  (forall e, In (EvWrite e) (Client.log (cl s)) -> erst e = false) ->
+  (forall e, In (EvWrite e) (Client.log (cl s)) -> eid e = fid (h_req k) -> erst e = false) ->
   Sys.quiescent s = true -> Server.inbox (sv s) = [] -> Client.inbox (cl s) = [] ->
   nth_error (hs (sv s)) h = Some k -> h_unary k = false -> h_pc k = HInRecv ->
   map f_env (takes h (Server.log (sv s))) = stream_writes (fid (h_req k)) (cl s) /\
@@ -74,7 +75,7 @@ Print Assumptions C02_handler_eof_complete.
 
 Theorem C02_handler_eof_delivered : forall pol ls s h k,
   Sys.lrun pol Sys.init ls = Some s -> fault_free ls = true ->
-  (forall e, In (EvWrite e) (Client.log (cl s)) -> erst e = false) ->
+  (forall e, In (EvWrite e) (Client.log (cl s)) -> eid e = fid (h_req k) -> erst e = false) ->
   Sys.quiescent s = true -> Server.inbox (sv s) = [] -> Client.inbox (cl s) = [] ->
   nth_error (hs (sv s)) h = Some k -> h_unary k = false -> h_pc k = HInRecv ->
   In (close_env (fid (h_req k))) (stream_writes (fid (h_req k)) (cl s)) ->
